@@ -429,6 +429,55 @@ pub fn run(args: &Args) -> Report {
             }
         }
 
+        // F2. a sweep, not only boundary points: 20..24-digit created_at values with every pair of leading digits
+        // (a wrapping accumulator is only caught by particular digit patterns), and kind values over the whole
+        // 17..64-bit range
+        {
+            let mut r2 = Rng::new(0x1A7E);
+            let mut bad_times: Vec<String> = vec![];
+            for lead in 18u32..=99 {
+                let tail: String = (0..18).map(|_| (b'0' + r2.below(10) as u8) as char).collect();
+                let v = format!("{lead}{tail}");
+                if v.parse::<u128>().unwrap() > u64::MAX as u128 {
+                    bad_times.push(v);
+                }
+            }
+            for digits in 21usize..=24 {
+                for lead in 1u32..=9 {
+                    let tail: String = (0..digits - 1).map(|_| (b'0' + r2.below(10) as u8) as char).collect();
+                    bad_times.push(format!("{lead}{tail}"));
+                }
+            }
+            let mut bad_kinds: Vec<String> = vec![];
+            for bits in 16u32..=66 {
+                let base: u128 = 1u128 << bits;
+                for add in [0u128, 1, 255, 65535] {
+                    bad_kinds.push(format!("{}", base + add));
+                }
+                bad_kinds.push(format!("{}", base + (r2.next_u64() as u128 % base)));
+            }
+            for (i, t) in bad_times.iter().enumerate() {
+                let mut r = EvRender::plain();
+                r.order = [[0, 1, 2, 3, 4, 5, 6], [3, 2, 0, 1, 4, 5, 6], [6, 5, 4, 0, 1, 3, 2]][i % 3];
+                r.created_text = Some(t.clone());
+                let (text, _) = render_event(&e1, &r, &mut rng);
+                let end = text.len();
+                let full = with_trailer(&mut rng, &text);
+                check_text(&mut rep, &Case { text: &full, expected_end: Some(end), truth: None, in_domain: false, must_reject: true, class: "created_at-out-of-range" });
+                rep.count("out_of_range_cases");
+            }
+            for (i, k) in bad_kinds.iter().enumerate() {
+                let mut r = EvRender::plain();
+                r.order = [[0, 1, 2, 3, 4, 5, 6], [3, 2, 0, 1, 4, 5, 6], [6, 5, 4, 0, 1, 3, 2]][i % 3];
+                r.kind_text = Some(k.clone());
+                let (text, _) = render_event(&e2, &r, &mut rng);
+                let end = text.len();
+                let full = with_trailer(&mut rng, &text);
+                check_text(&mut rep, &Case { text: &full, expected_end: Some(end), truth: None, in_domain: false, must_reject: true, class: "kind-out-of-range" });
+                rep.count("out_of_range_cases");
+            }
+        }
+
         // G. tag sections up to the 65,535-byte limit
         for target in [65535usize, 65534, 65000, 40000] {
             // one tag with one long string: 4 + 2 + 2 + 2 + n = target
